@@ -282,6 +282,11 @@ def view(ctx, f, depth=3, stop=(), _stack=(), force=()):
             out['tail'] = rw(f.get('tail'))
             out['returns'] = [rw(r) for r in out.get('returns', [])]
     unroll(out)
+    for L in LISTS:
+        out[L] = [option_lists(it) for it in out.get(L, [])]
+    if out.get('tail') is not None:
+        out['tail'] = option_lists(out['tail'])
+    out['returns'] = [option_lists(r) for r in out.get('returns', [])]
     memo[key] = out
     return out
 
@@ -326,6 +331,64 @@ def _project(v):
             else:
                 parts.append(p)
         v['parts'] = parts
+    return v
+
+
+def _opt_item(x):
+    """(condition or None, value) when x is an Option-valued expression whose presence is one boolean: `c.then_some(v)` /
+    `c.then(|| v)` (both evaluated by astq as `if c { Some(v) } else { None }`), `Some(v)`, and `<such>.map(|a| body)`;
+    ('drop', None) for a literal None; None when it cannot be read that way."""
+    x = vt.unvar(x)
+    if not isinstance(x, dict):
+        return None
+    if x.get('k') == 'some':
+        return (None, x.get('v'))
+    if x.get('k') == 'none':
+        return ('drop', None)
+    if x.get('k') == 'cond':
+        t, e = vt.unvar(x.get('t')), vt.unvar(x.get('e'))
+        if isinstance(t, dict) and t.get('k') == 'some' and isinstance(e, dict) and e.get('k') == 'none':
+            return (x.get('c'), t.get('v'))
+        return None
+    if x.get('k') == 'call' and x.get('f') == 'map' and x.get('recv') is not None and len(x.get('args', [])) == 1:
+        inner = _opt_item(x['recv'])
+        clo = vt.unvar(x['args'][0])
+        if inner is None or inner[0] == 'drop' or not (isinstance(clo, dict) and clo.get('k') == 'closure' and isinstance(clo.get('body'), dict)):
+            return inner if inner and inner[0] == 'drop' else None
+        rkey = vt.ckey(x['recv'])
+
+        def repl(v, d=0):
+            if isinstance(v, list):
+                return [repl(y, d + 1) for y in v]
+            if not isinstance(v, dict) or d > 60:
+                return v
+            if v.get('k') == 'elem' and vt.ckey(v.get('of')) == rkey:
+                return inner[1]
+            return {k: (repl(y, d + 1) if isinstance(y, (dict, list)) else y) for k, y in v.items()}
+        return (inner[0], repl(clo['body']))
+    return None
+
+
+def option_lists(v, d=0):
+    """`[opt_a, opt_b, …].into_iter().flatten().collect()` is the list that holds a when its condition holds, then b when its
+    condition holds …: rewritten into the form the evaluator gives to `let mut v = vec![]; if ca { v.push(a) } if cb { v.push(b) }`
+    (a `vecof` with guarded items), so that both spellings are one value to the rules."""
+    if isinstance(v, list):
+        return [option_lists(x, d + 1) for x in v]
+    if not isinstance(v, dict) or d > 80:
+        return v
+    v = {k: (option_lists(x, d + 1) if isinstance(x, (dict, list)) else x) for k, x in v.items()}
+    if v.get('k') == 'call' and v.get('f') in ('collect', 'collect_vec') and v.get('recv') is not None:
+        fl = vt.unvar(v['recv'])
+        if isinstance(fl, dict) and fl.get('k') == 'call' and fl.get('f') == 'flatten' and fl.get('recv') is not None:
+            src = vt.unvar(fl['recv'])
+            while isinstance(src, dict) and src.get('k') == 'call' and src.get('f') in ('into_iter', 'iter') and src.get('recv') is not None:
+                src = vt.unvar(src['recv'])
+            if isinstance(src, dict) and src.get('k') in ('array', 'tuple') and src.get('items'):
+                items = [_opt_item(x) for x in src['items']]
+                if all(i is not None for i in items):
+                    return {'k': 'vecof', 'ty': v.get('ty') or 'Vec<String>', 'from_option_list': True,
+                            'items': [{'guard': ([{'k': 'if', 'c': c, 'neg': False, 'line': v.get('line')}] if c is not None else []), 'v': val, 'how': 'push', 'line': v.get('line')} for c, val in items if c != 'drop']}
     return v
 
 
